@@ -353,6 +353,16 @@ def named_program(name):
         n = g.add_op(Not, b)
         g.add_state_order(d, n)
         g.set_outputs(d[0], n)
+    elif name == "order_back":        # order edges from a later node to an earlier one, and fan-in
+        g = m.define_main([tys.Bool])
+        (b,) = g.inputs()
+        n1 = g.add_op(Not, b)
+        n2 = g.add_op(Not, b)
+        n3 = g.add_op(Not, b)
+        g.add_state_order(n3, n1)
+        g.add_state_order(n2, n1)
+        g.add_state_order(n3, n2)
+        g.set_outputs(n1, n2, n3)
     elif name == "dfg_root":          # not a module: export of the root as a module region raises
         d = Dfg(tys.Bool)
         d.set_outputs(*d.inputs())
@@ -363,10 +373,66 @@ def named_program(name):
 
 
 NAMED = ["call_twice", "load_twice", "order_hint", "cfg_entry", "cfg_loop", "fn_value", "poly_call", "alias",
-         "unused_outputs", "order_fan"]
+         "unused_outputs", "order_fan", "order_back"]
 # programs outside the guard of the theorems (not claimed valid): model and implementation must still agree
 BOUNDARY = ["dfg_root", "cfg_no_entry", "half_order"]
 GUARDS = ("g_valid", "g_order", "g_ports", "g_stars", "g_cfg", "g_hints", "g_total", "g_all", "g_noerr", "g_numexact")
+
+
+# ----------------------------------------------------------------------------- extra state-order edges
+
+ORDERABLE = ("KDFG", "KCFG", "KCond", "KLoop", "KCall", "KLoadFunc", "KLoadConst", "KCallInd", "KTag", "KExt")
+
+
+def add_unrelated_order_edges(h, rng, tries=3):
+    """harness/progs.py only adds state-order edges that point forward in node order.  The builder allows any
+    acyclic one (Dfg.add_state_order): this adds, in random dataflow regions, order edges between siblings that
+    no path of value/order edges relates, preferably from the later node to the earlier one.  Returns their number."""
+    from hugr import ops
+    containers = [n for n in h if isinstance(h[n].op, (ops.DFG, ops.FuncDefn, ops.TailLoop, ops.Case, ops.DataflowBlock))]
+    rng.shuffle(containers)
+    added = 0
+    for cont in containers:
+        if added >= tries:
+            break
+        kids = [c for c in h.children(cont) if kind_of(h[c].op) in ORDERABLE]
+        if len(kids) < 2:
+            continue
+        inside = {}
+        for c in kids:                       # every node below a sibling counts as that sibling
+            stack = [c]
+            while stack:
+                x = stack.pop()
+                inside[x] = c
+                stack.extend(h.children(x))
+        succ = {c: set() for c in kids}
+        for s_, t_ in h.links():
+            a, b = inside.get(s_.node), inside.get(t_.node)
+            if a is not None and b is not None and a != b:
+                succ[a].add(b)
+
+        def reach(a, b):
+            seen, stack = set(), [a]
+            while stack:
+                x = stack.pop()
+                if x == b:
+                    return True
+                if x not in seen:
+                    seen.add(x)
+                    stack.extend(succ[x])
+            return False
+        pairs = [(a, b) for a in kids for b in kids if a.idx > b.idx]
+        rng.shuffle(pairs)
+        for a, b in pairs[:6]:
+            if reach(a, b) or reach(b, a):
+                continue
+            if rng.random() < 0.25:
+                a, b = b, a
+            h.add_order_link(a, b)
+            succ[a].add(b)
+            added += 1
+            break
+    return added
 
 
 # ----------------------------------------------------------------------------- python.rs / hugr.model -> coq/gen/ModelAttrs.v
@@ -486,7 +552,9 @@ class C12(fw.Prop):
     shard = 12
     rule = ("module-rooted HUGRs built by generated well-formed builder programs (harness/progs.py, root=module: "
             "declared/defined/polymorphic functions called and loaded several times, module-level and local "
-            "constants incl. function values, order edges, nested DFG/Conditional/TailLoop/CFG, metadata) plus "
+            "constants incl. function values, order edges (forward ones from the generator; in half of the cases the harness "
+            "adds acyclic ones between unrelated siblings, mostly pointing backward), nested DFG/Conditional/TailLoop/"
+            "CFG, metadata) plus "
             "hand-written ones; Hugr.to_model() (and Package.to_model()) observed as the dataclass tree.  "
             "non-trivial = the HUGR has a static edge (call or load), an order edge between siblings and a "
             "nested container")
@@ -521,6 +589,8 @@ class C12(fw.Prop):
                 c["valid"] = False
             elif r < 0.12:
                 c["package"] = True
+            if c["root"] == "module" and rng.random() < 0.5:
+                c["xorder"] = True           # extra order edges between unrelated siblings, also pointing backward
             cases.append(c)
         return cases
 
@@ -534,7 +604,10 @@ class C12(fw.Prop):
             kw["max_depth"] = case["depth"]
         p = progs.gen_program(random.Random(case["seed"]), case.get("root"), **kw)
         try:
-            return progs.run(p).hugr, p
+            h = progs.run(p).hugr
+            if case.get("xorder"):
+                add_unrelated_order_edges(h, random.Random(case["seed"] ^ 0x5EED))
+            return h, p
         except TypeError:
             # generator artefact (a region that could not be completed): replaced by a fixed program
             return named_program("call_twice"), "call_twice(fallback)"
@@ -600,7 +673,8 @@ class C12(fw.Prop):
         kind = {i["idx"]: i["kind"] for i in nodes}
         sib_order = [l for l in order if kind.get(l[0]) != "KInput" and kind.get(l[2]) != "KOutput"]
         return {"nodes": len(nodes), "depth": depth[0], "kinds": kinds, "order": len(order),
-                "sib_order": len(sib_order), "links": len(v["links"])}
+                "sib_order": len(sib_order), "back_order": sum(1 for l in sib_order if l[0] > l[2]),
+                "links": len(v["links"])}
 
     def nontrivial(self, case, obs):
         if "error" in obs:
@@ -664,6 +738,7 @@ class C12(fw.Prop):
                 d["kinds"][k] = d["kinds"].get(k, 0) + v
             d["order_edges"] += s["order"]
             d["sibling_order_edges"] += s["sib_order"]
+            d["backward_sibling_order_edges"] = d.get("backward_sibling_order_edges", 0) + s["back_order"]
             d["non_module_roots"] += s["kinds"].get("KModule", 0) == 0
             if o.get("raised"):
                 d["raised"][o["raised"]] = d["raised"].get(o["raised"], 0) + 1
